@@ -11,6 +11,7 @@ import (
 	"fmt"
 	"io"
 	"io/fs"
+	"os"
 	"strings"
 	"syscall"
 
@@ -67,7 +68,13 @@ func (f *faultW) Write(p []byte) (int, error) {
 		w.attempts = append(w.attempts, a)
 		// destinations fail with errors of different concrete types, some after a short write
 		w.nfail++
-		switch w.nfail % 4 {
+		switch w.nfail % 7 {
+		case 4:
+			return 0, os.ErrClosed
+		case 5:
+			return 0, &fs.PathError{Op: "write", Path: f.name, Err: os.ErrClosed}
+		case 6:
+			return 0, io.ErrClosedPipe
 		case 0:
 			return 0, errors.New("injected write failure on " + f.name)
 		case 1:
@@ -262,6 +269,11 @@ func c13check(cas c13case, w *c13world, st *c13setup, x *sched.Execution, level 
 
 func c13runOne(cas c13case, prefix []int) (*sched.Execution, *c13world, *c13setup) {
 	w := &c13world{perCall: map[string]int{}}
+	// which error type the first failure has rotates with the case, so that every type is also a first failure
+	w.nfail = cas.Config + cas.Level + len(cas.Seq)
+	for _, c := range cas.Seq {
+		w.nfail += c
+	}
 	level := slog.Level(cas.Level)
 	var st *c13setup
 	body := func() {
